@@ -388,6 +388,7 @@ func (s *Sorts) preamble() []string {
 		"(declare-fun str2i (Str) Int)",
 		"(declare-fun i2str (Int) Str)",
 		"(declare-fun bitof (Int Int) Int)",
+		"(assert (forall ((x!b Int) (s!b Int)) (! (and (<= 0 (bitof x!b s!b)) (<= (bitof x!b s!b) 1)) :pattern ((bitof x!b s!b)))))",
 	)
 	if s.bv {
 		out = append(out, "(declare-datatypes ((SliceBV 0)) (((mk_SliceBV (s_arr Int) (s_off (_ BitVec 64)) (s_len (_ BitVec 64)) (s_cap (_ BitVec 64))))))")
